@@ -21,6 +21,7 @@ fn main() {
         "C08" => csem::c08(tier),
         "C09" => csem::c09(tier),
         "C04-child" => c04::child(tier, args.get(3).map(|s| s.as_str()).unwrap_or("?")),
+        "one-call" => dets::one_call(args.get(2).map(|s| s.as_str()).unwrap_or(""), args.get(3).map(|s| s.as_str()).unwrap_or("")),
         "C10" => c10::run(tier),
         "C11" => report::c11_c12("C11", tier),
         "C12" => report::c11_c12("C12", tier),
